@@ -21,7 +21,7 @@ type base struct {
 // cspec is one input: an edit of a base, or raw bytes.
 type cspec struct {
 	ID   string `json:"id"`
-	Fam  string `json:"fam"`            // corpus | gen | tmpl | bytes | enum | nest | htmlattr | interp | tagpos | regress
+	Fam  string `json:"fam"`            // corpus | gen | tmpl | bytes | enum | nest | htmlattr | interp | strtail | tagpos | regress
 	Base int    `json:"base"`           // index into job.Bases, -1 for raw
 	Op   string `json:"op"`             // raw | whole | prefix | del | dup | sub | cutsub | cut | ins | insend | flip | rep
 	I    int    `json:"i,omitempty"`    // token index / byte offset
